@@ -33,7 +33,7 @@ RS_OV_MULTI = [{"file": "ring/replication_set.go", "rewrite": ['"sync"']},
 
 CHECKS = {
     "C01": {"parts": [P("lookup", "./c01", "^TestC01$")]},
-    "C02": {"parts": [P("quorum-intersection", "./c02", "^TestC02$")]},
+    "C02": {"parts": [P("quorum-intersection", "./c02", "^TestC02$")]},  # + write-executor-criterion (appended below)
     "C03": {"parts": [P("instance-ring", "./c03", "^TestC03Instances$"), P("partition-ring", "./c03", "^TestC03Partitions$")]},
     "C04": {"parts": [P("tombstones", "./gossip", "^TestC04$", budget={"quick": 240, "thorough": 1500})]},
     "C06": {"parts": [P("convergence", "./gossip", "^TestC06Convergence$", budget={"quick": 240, "thorough": 1500}),
@@ -75,6 +75,10 @@ CHECKS = {
     "C15": {"parts": [P("routing", "./c15", "^TestC15Routing$"), P("replication-sets", "./c15", "^TestC15ReplicationSets$"), P("multi-partition-replication-sets", "./c15", "^TestC15MultiReplicationSets$"),
                       P("state-machine", "./lifecycle", "^TestC15StateMachine$", shards={"quick": 16, "thorough": 16}, budget={"quick": 200, "thorough": 1200}, gomaxprocs=1)]},
 }
+
+# C02 takes the write executor's acknowledgement criterion from the real DoBatch (same harness and overlay as C10)
+CHECKS["C02"]["parts"].append(P("write-executor-criterion", "./c10", "^TestC02Executor$", shards={"quick": 8, "thorough": 8},
+                                budget={"quick": 200, "thorough": 600}, gomaxprocs=1, overlay=CHECKS["C10"]["parts"][0]["overlay"]))
 
 # Race audit (free-running bodies under the Go race detector, h/racepass): appended to the properties whose
 # other parts rely on "shared memory is only touched under the locks the code takes".
